@@ -299,3 +299,45 @@ def _register_serialization():
 
 
 _register_serialization()
+
+
+def annotated(x='dx', y='dy') -> Base:
+  """Return annotation: a class."""
+  return Base(x, y)
+
+
+def annotated_builtin(x='dx', y='dy') -> int:
+  return 1
+
+
+def annotated_none(x='dx', y='dy') -> None:
+  return None
+
+
+def nodes(x='dx', y='dy'):
+  """A callable whose name equals its module's import name."""
+  return vfx.rec('nodes', locals())
+
+
+def config_fixture(x='dx', y='dy'):
+  """A callable whose name equals the generated fixture's name."""
+  return vfx.rec('config_fixture', locals())
+
+
+class Outer:
+  """Nested enum / class (qualname with a dot)."""
+
+  class Mode(enum.Enum):
+    TRAIN = 1
+    EVAL = 2
+
+  class Inner(vfx.RecObj):
+
+    def __init__(self, x='dx', y='dy'):
+      self._record('Outer.Inner', locals())
+
+
+class Mode(enum.Enum):
+  """Same name as Outer.Mode at module level."""
+  TRAIN = 10
+  EVAL = 20
